@@ -173,8 +173,8 @@ Definition fill_window (p : lzp) (d : lzd) (n : Z) (tr : list wev) : outcome (lz
   if (buf_size p <? d_end) || (n <? len) then Panic P_INDEX else   (* buf[d_start..d_end], input[..len] *)
   do wp <- ck_i32 (write_pos d1 + as_i32 len);
   do rl <- (if as_i32 (keep_after p) <=? wp then ck_i32 (wp - as_i32 (keep_after p)) else Ok (read_limit d1));
-  do r2 <- process_pending p (mkLzd (read_pos d1) rl (finishing d1) wp (pending_size d1)) tr1;
-  Ok (fst r2, len, EvFill n len :: snd r2).
+  do r2 <- process_pending p (mkLzd (read_pos d1) rl (finishing d1) wp (pending_size d1)) (EvFill n len :: tr1);
+  Ok (fst r2, len, snd r2).
 
 (* set_flushing / set_finishing *)
 Definition set_flushing (p : lzp) (d : lzd) (tr : list wev) : outcome (lzd * list wev) :=
@@ -448,10 +448,10 @@ Section WithOracle.
 
   Fixpoint l1_run (s : l1st) (ops : list wop) (res : list opres) : outcome (l1st * list opres) :=
     match ops with
-    | [] => Ok (s, rev res)
+    | [] => Ok (s, frev res)
     | OpWrite n :: r => do x <- l1_write s n; l1_run (fst x) r (snd x :: res)
     | OpFlush :: r => l1_run s r (RDone :: res)          (* LZMAWriter::flush does nothing *)
-    | OpFinish :: _ => do x <- l1_finish s; Ok (fst x, rev (snd x :: res))   (* finish consumes the writer *)
+    | OpFinish :: _ => do x <- l1_finish s; Ok (fst x, frev (snd x :: res))   (* finish consumes the writer *)
     end.
 
   (* -------------------------------------------------------------------------------------------
@@ -580,10 +580,10 @@ Section WithOracle.
 
   Fixpoint l2_run (s : l2st) (ops : list wop) (res : list opres) : outcome (l2st * list opres) :=
     match ops with
-    | [] => Ok (s, rev res)
+    | [] => Ok (s, frev res)
     | OpWrite n :: r => do x <- l2_write s n; l2_run (fst x) r (snd x :: res)
     | OpFlush :: r => do x <- l2_flush s; l2_run (fst x) r (snd x :: res)
-    | OpFinish :: _ => do x <- l2_finish s; Ok (fst x, rev (snd x :: res))
+    | OpFinish :: _ => do x <- l2_finish s; Ok (fst x, frev (snd x :: res))
     end.
 End WithOracle.
 
@@ -613,7 +613,7 @@ Definition l1_replay (normal bt4 : bool) (dict nice : Z) (preset expected : opti
   : outcome (list wev * list opres * list ditem) :=
   do s <- l1_new (list ditem) normal bt4 dict nice preset expected ds;
   do r <- l1_run (list ditem) replay_parse s ops [];
-  Ok (rev (l1_tr _ (fst r)), snd r, l1_ps _ (fst r)).
+  Ok (frev (l1_tr _ (fst r)), snd r, l1_ps _ (fst r)).
 
 (* [policy]: 0 = repaired (caller's extra + mode's), 1 = fa095d0 (max), 2 = original (mode's only) *)
 Definition l2_newenc (policy : Z) (normal bt4 : bool) (dict nice : Z) : outcome (lzp * encd) :=
@@ -625,4 +625,4 @@ Definition l2_replay (policy : Z) (normal bt4 : bool) (dict nice : Z) (preset ch
   : outcome (list wev * list opres * list ditem) :=
   do s <- l2_new_with (list ditem) (l2_newenc policy normal bt4 dict nice) dict preset chunk ds;
   do r <- l2_run (list ditem) replay_parse replay_chunkc s ops [];
-  Ok (rev (l2_tr _ (fst r)), snd r, l2_ps _ (fst r)).
+  Ok (frev (l2_tr _ (fst r)), snd r, l2_ps _ (fst r)).
